@@ -191,6 +191,22 @@ def oracle_member(op, ts, s, e, p, out, recomputed):
     return bad
 
 
+def align_draws(op, tss, draws):
+    """one draw entry per member: shuffle consumes no draw for an empty member (it is returned unchanged)"""
+    if op != "shuffle_ts_intervals":
+        return draws
+    it, out = iter(draws), []
+    for ts in tss:
+        if not ts:
+            out.append([])
+        else:
+            d = next(it, None)
+            if d is None:
+                return draws
+            out.append(d)
+    return out if next(it, None) is None else draws
+
+
 def support_kept(op, p):
     return op in ("shift_timestamps", "resample_timestamps") or (op == "jitter_timestamps" and p["keep"])
 
@@ -429,7 +445,7 @@ def run(res, tier, seed):
     for n, (op, keys, tss, s, e, p) in enumerate(group_cases(tier, seed)):
         dr = Draws("lattice", rng=random.Random(seed * 13 + n))
         r = run_group(nap, op, keys, tss, s, e, p, dr)
-        draws = dr.flat()
+        draws = align_draws(op, tss, dr.flat())
         inp = {"kind": "TsGroup", "op": op, "keys": keys, "tss": tss, "support": [s, e], "params": p, "draws": draws}
         res.case(("B", op, tuple(keys), str(tss), s, str(p), str(draws)), nontrivial=r[0] == "ok" and r[2] != tss)
         res.count("B:" + op)
@@ -469,7 +485,7 @@ def run(res, tier, seed):
             keys = sorted(rng.sample(range(0, 50), rng.randint(1, 5)))
             tss = [rand_ts(rng, o, L, 25) if rng.random() > 0.05 else [] for _ in keys]
             r = run_group(nap, op, keys, tss, s, e, p, dr)
-            draws = dr.flat()
+            draws = align_draws(op, tss, dr.flat())
             inp = {"kind": "TsGroup", "op": op, "keys": keys, "tss": tss, "support": [s, e], "params": p, "draws": draws}
             res.case(("C", n), nontrivial=r[0] == "ok" and r[2] != tss)
             record(res, judge_group(op, keys, tss, s, e, p, r, draws), inp)
@@ -506,7 +522,7 @@ def run(res, tier, seed):
             if rng.random() < 0.3:      # make two members' recomputed supports touch
                 tss[1] = [x for x in [tss[0][-1] + g for g in (0, 7, 2000)] if x <= e] or tss[1]
             r = run_group(nap, "shuffle_ts_intervals", keys, tss, s, e, {}, dr)
-            draws = dr.flat()
+            draws = align_draws("shuffle_ts_intervals", tss, dr.flat())
             inp = {"kind": "TsGroup", "op": "shuffle_ts_intervals", "keys": keys, "tss": tss, "support": [s, e], "params": {}, "draws": draws}
             res.case(("E", n), nontrivial=r[0] == "ok" and r[2] != tss)
             record(res, judge_group("shuffle_ts_intervals", keys, tss, s, e, {}, r, draws), inp)
@@ -552,7 +568,7 @@ def run(res, tier, seed):
             keys = sorted(rng.sample(range(0, 20), rng.randint(1, 4)))
             tss = [mkns(6) for _ in keys]
             r = run_group(nap, op, keys, tss, s, e, p, dr)
-            draws = dr.flat()
+            draws = align_draws(op, tss, dr.flat())
             inp = {"kind": "TsGroup", "op": op, "keys": keys, "tss": tss, "support": [s, e], "params": p, "draws": draws, "resolution": "ns"}
             res.case(("F", n), nontrivial=r[0] == "ok" and r[2] != tss)
             record(res, judge_group(op, keys, tss, s, e, p, r, draws), inp)
@@ -626,7 +642,7 @@ def run(res, tier, seed):
             r = run_group(nap, op, keys, tss, s, e, p, dr)
             inp = {"kind": "TsGroup", "op": op, "keys": keys, "tss": tss, "support": [s, e], "params": p, "numpy_seed": sd}
             res.case(("D", "TsGroup", op, sd), nontrivial=r[0] == "ok" and r[2] != tss)
-            record(res, judge_group(op, keys, tss, s, e, p, r, dr.flat()), inp)
+            record(res, judge_group(op, keys, tss, s, e, p, r, align_draws(op, tss, dr.flat())), inp)
             res.count("D:" + op, 2)
 
 
@@ -651,12 +667,12 @@ def replay(payload):
     if "numpy_seed" in inp:
         dr = Draws("real", seed=inp["numpy_seed"])
     else:
-        script = [d if op == "shuffle_ts_intervals" else None for d in inp["draws"]]
         flat = []
-        for d, sc in zip(inp["draws"], script):
-            if sc is None:
+        members = [inp["ts"]] if inp["kind"] == "Ts" else inp["tss"]
+        for i, d in enumerate(inp["draws"]):
+            if op != "shuffle_ts_intervals":
                 flat.extend(d)
-            else:
+            elif i >= len(members) or members[i]:      # no permutation is drawn for an empty member
                 flat.append(d)
         dr = Draws("script", script=flat)
     if inp["kind"] == "Ts":
@@ -665,7 +681,7 @@ def replay(payload):
         print("op", op, "Ts", inp["ts"], "support", [s, e], "params", p, "draws", dr.flat())
     else:
         r = run_group(nap, op, inp["keys"], inp["tss"], s, e, p, dr)
-        bad = judge_group(op, inp["keys"], inp["tss"], s, e, p, r, dr.flat())
+        bad = judge_group(op, inp["keys"], inp["tss"], s, e, p, r, align_draws(op, inp["tss"], dr.flat()))
         print("op", op, "TsGroup", dict(zip(inp["keys"], inp["tss"])), "support", [s, e], "params", p, "draws", dr.flat())
     print("impl", r[1:4] if r[0] == "ok" else r)
     for b in bad:
